@@ -413,7 +413,7 @@ def showing_components(chk, ctx) -> None:
             n_up = stat[1][2]          # how many flags are True
             shown = T.show(n_up)
             good = n_up[0] == 'call' and n_up[1] == 'len' and 'status_or_hole_cards' in shown and 'filterfalse' not in shown \
-                and shown.startswith('len(tuple(filter(None, ')
+                and (shown.startswith('len(tuple(filter(None, ') or shown.startswith("len(tuple(comp('gen'"))
         if not good:
             ok_flags = False
             why = T.show(stat)[:160]
